@@ -7,7 +7,7 @@
    correspondence run compares normalize on its output with NewFrom on the Go value. *)
 From Coq Require Import Permutation Sorting.Sorted.
 From Ucfg Require Import Base ParseInt Consts Field Tree PathOps Merge OTree VarParse Normalize
-     ProofsNormalize ProofsNormData.
+     ProofsNormalize ProofsNormData ProofsDotted.
 
 (* Data in = data out, for EVERY plain data tree of any depth and width given as generic maps
    and lists (no path separator, no variable expansion): the config exists and its generic
@@ -43,6 +43,24 @@ Theorem c05_enumeration_order_irrelevant : forall o g g',
 Proof. exact normalize_gperm. Qed.
 Print Assumptions c05_enumeration_order_irrelevant.
 
+(* A dotted key is the nesting it spells: for every chain of names n1.n2...nk (no dots inside a
+   name, not index-like) and every value. *)
+Theorem c05_dotted_key_is_nesting_partial : forall o, p_sep (n_p o) = "." -> p_escape (n_p o) = false ->
+  forall n r x v, Forall (seg_name o) (n :: r) -> normalize_value o x = Ok (v, None) ->
+  normalize_value o (GMap true [(KStr (dotted n r), x)]) = normalize_value o (gchain (n :: r) x).
+Proof. exact dotted_is_nested. Qed.
+Print Assumptions c05_dotted_key_is_nesting_partial.
+
+Theorem c05_dotted_example :
+  let o := {| n_p := {| p_sep := "."; p_maxIdx := 1024; p_numKeys := false; p_escape := false |};
+              n_varexp := false; n_m := {| m_h := 0%N; m_ft := None |} |} in
+  Forall (seg_name o) ["output"; "elasticsearch"; "hosts"] /\
+  dotted "output" ["elasticsearch"; "hosts"] = "output.elasticsearch.hosts" /\
+  normalize o (GMap true [(KStr "output.elasticsearch.hosts", GList [GStr "a"; GStr "b"])])
+  = normalize o (GMap true [(KStr "output", GMap true [(KStr "elasticsearch", GMap true [(KStr "hosts", GList [GStr "a"; GStr "b"])])])]).
+Proof. exact dotted_example. Qed.
+Print Assumptions c05_dotted_example.
+
 (* non-vacuity, and a dotted key next to the nesting it duplicates is rejected *)
 Theorem c05_plain_example :
   let o := {| n_p := {| p_sep := ""; p_maxIdx := 1024; p_numKeys := false; p_escape := false |};
@@ -65,6 +83,6 @@ Proof. exact sorted_visit_example. Qed.
 Print Assumptions c05_duplicate_example.
 
 (* NOT proved here (c05 is partial in this respect): the equivalence of dotted keys and nesting
-   for all partial flattenings, the struct / typed-map representations, and duplicate
+   for mixtures of several keys (one dotted chain is proved above), the struct / typed-map representations, and duplicate
    rejection for all overlapping spellings. They are decided by the correspondence run only
    (and F9b shows the last one false for two object-valued spellings). *)
